@@ -17,7 +17,7 @@ use std::ops::Range;
 pub static INFO: PropInfo = PropInfo {
     id: "C06",
     level: "exploration",
-    rule: "one evaluation = one hostile datagram handed to process_packet (client role) or process_packet_from (server role) of a connection that is inside a live simulated session (states: fresh, with honest traffic in flight / partially reassembled / buffered because the application does not drain / after drains / after earlier hostile datagrams), next to a second healthy connection on the same server. Generators: replay of captured valid packets; one field of a decoded valid packet replaced by a boundary value and re-encoded with the crate's encoder; packets built from scratch with every field from boundary sets (sequence, channel id incl. wrong kind / unknown, message id, slice index {0,n-1,n,n+1,huge}, slice count {1,2,3,4369,4370,10^6}, payload length {0,1,1199,1200,1201}, 0..700 ack ranges incl. 0..2^62 and ranges over the live sent window); follow-up slices contradicting an earlier one (other count, other length, index >= count); every truncation; 1-3 bit flips; random strings up to 1400 bytes. Oracle per call: no unwind (catch_unwind) and return within 20 s; status either unchanged or Disconnected with a reason; accounted receive memory of every channel (hook) within [0, max]; live-heap peak during the call <= sum of receive budgets + 1 MB (counting allocator); every 8 datagrams a full tick of all API calls on both connections must not panic; at the end the healthy connection must have obtained every message in order (C01 oracle incl. deadline). Non-trivial = the datagram was decodable by the crate's decoder (it got past the parser) or disconnected the victim; distinct = distinct (class, outcome, first 24 bytes) fingerprints.",
+    rule: "one evaluation = one hostile datagram handed to process_packet (client role) or process_packet_from (server role) of a connection that is inside a live simulated session (states: fresh, with honest traffic in flight / partially reassembled / buffered because the application does not drain / after drains / after earlier hostile datagrams), next to a second healthy connection on the same server. Generators: replay of captured valid packets; one field of a decoded valid packet replaced by a boundary value and re-encoded with the crate's encoder; packets built from scratch with every field from boundary sets (sequence, channel id incl. wrong kind / unknown, message id, slice index {0,n-1,n,n+1,huge}, slice count {1,2,3,4369,4370,10^6}, payload length {0,1,1199,1200,1201}, 0..700 ack ranges incl. 0..2^62 and ranges over the live sent window); follow-up slices contradicting an earlier one (other count, other length, index >= count); every truncation; 1-3 bit flips; random strings up to 1400 bytes. Oracle per call: no unwind (catch_unwind) and return within 20 s; status either unchanged or Disconnected with a reason; accounted receive memory of every channel (hook) within [0, max]; live-heap peak during the call <= sum of receive budgets + 1 MB (counting allocator); every 8 datagrams a full tick of all API calls on both connections must not panic; at the end the healthy connection must have obtained every message in order (C01 oracle incl. deadline). Half-way through a victim whose application does not drain gets a BUDGET-EDGE sequence: unreliable messages that leave exactly one slice of the unreliable receive budget free, then a one-slice sliced message whose only slice is 1201..1390 bytes long - its reservation fits, what is accounted on completion must not exceed the budget (or the connection drops). Non-trivial = the datagram was decodable by the crate's decoder (it got past the parser) or disconnected the victim; distinct = distinct (class, outcome, first 24 bytes) fingerprints.",
     assumptions: &["the healthy connection's link is clean so that its deadline is short", "heap bound uses a 1 MB slack for container growth"],
     gates: &[
         ("hostile_calls", 60_000),
@@ -72,6 +72,8 @@ struct Gen {
     /// (reliable?, channel, message id, num_slices) of slices seen / injected
     slices_seen: Vec<(bool, u8, u64, usize)>,
     sent_window: Range<u64>,
+    /// a planned sequence of datagrams (delivered before anything else is generated)
+    queue: std::collections::VecDeque<(Vec<u8>, &'static str)>,
 }
 
 fn pick_channel(r: &mut Rng) -> u8 {
@@ -485,6 +487,7 @@ pub fn one_run(ctx: &Ctx, out: &mut Outcome, run_seed: u64) {
         recent: Vec::new(),
         slices_seen: Vec::new(),
         sent_window: 0..1,
+        queue: std::collections::VecDeque::new(),
     };
     let mut fp_run = Fnv::new();
     let mut history: Vec<String> = Vec::new();
@@ -567,10 +570,38 @@ pub fn one_run(ctx: &Ctx, out: &mut Outcome, run_seed: u64) {
         if sim.disconnected(victim, role) {
             break;
         }
+        // budget edge (victims whose application does not drain): unreliable messages that leave exactly one slice of the
+        // receive budget free, then a one-slice "sliced" message whose only slice is longer than a slice. Its reservation
+        // fits; what is accounted when it completes must not exceed the budget (or the connection is dropped)
+        if !victim_drains && k == n_inject / 2 && g.queue.is_empty() {
+            if let (Some(e), Some(spec)) = (sim.endpoint(victim, role), chans.iter().find(|c| c.id == CH_U)) {
+                let held = e.verif_receive_memory(CH_U).unwrap_or(0);
+                if spec.max_mem >= held + 1200 && (spec.max_mem - held - 1200) / 1200 <= 80 {
+                    let mut filler = spec.max_mem - held - 1200;
+                    let mut seq = 40_000u64;
+                    while filler > 0 {
+                        let n = filler.min(1200);
+                        if let Some(b) = encode(&Packet::SmallUnreliable { sequence: seq, channel_id: CH_U, messages: vec![bytes::Bytes::from(vec![0x5Au8; n])] }) {
+                            g.queue.push_back((b, "budget-edge-filler"));
+                        }
+                        seq += 1;
+                        filler -= n;
+                    }
+                    let over = 1200 + r.urange(1, 190);
+                    let slice = renet::verif::Slice { message_id: 0xABCDE, slice_index: 0, num_slices: 1, payload: bytes::Bytes::from(vec![0xA5u8; over]) };
+                    if let Some(b) = encode(&Packet::UnreliableSlice { sequence: seq, channel_id: CH_U, slice }) {
+                        g.queue.push_back((b, "budget-edge-oversized-last-slice"));
+                        out.count("budget_edge_sequences_planned");
+                    }
+                }
+            }
+        }
         // window of the victim endpoint's own sent packets (for acks over the live window)
-        let (mut bytes, mut class) = generate(&mut r, &g);
+        let planned = g.queue.pop_front();
+        let from_plan = planned.is_some();
+        let (mut bytes, mut class) = planned.unwrap_or_else(|| generate(&mut r, &g));
         let mut decodable = crate::rsim::decode(&bytes);
-        if survivable {
+        if survivable && !from_plan {
             // deep histories: prefer datagrams that get past the parser and address a channel of the
             // right kind, so that the victim stays alive and accumulates hostile state
             for _ in 0..6 {
